@@ -105,6 +105,14 @@ func (e *Engine) exec(st *State, fr *Frame, instr ssa.Instruction) []*State {
 			if e.Cfg.Hooks.OnRead != nil {
 				e.Cfg.Hooks.OnRead(e, st, fr, x, s, idx)
 			}
+		case ArrV:
+			ok := iok && e.proveLE(st, K(0), idx) && e.proveLT(st, idx, K(s.Len))
+			e.Check(st, fr, x.Pos(), "B-idx", canonExpr(x), ok, fmt.Sprintf("cannot show 0 ≤ %s < %d", e.LinStr(idx), s.Len))
+			if !iok {
+				set(x, e.freshOfType(st, x.Type(), "elem"))
+				break
+			}
+			set(x, e.loadPtr(st, PtrV{Key: s.Ptr.Key + "[" + idx.Key() + "]", Arr: s.Ptr.Key, Idx: idx, T: x.Type()}))
 		default:
 			e.Check(st, fr, x.Pos(), "B-idx", canonExpr(x), false, "unknown indexed value")
 			set(x, e.unk())
